@@ -29,7 +29,7 @@ def startfault(n=60, tags="verif"):
     system call fails; whatever the framework created must be closed again when Run / Start returns"""
     return dict(cmd="drv-loop", variant="startfault" + ("-pollopt" if "poll_opt" in tags else ""), corpus_family="loopstart",
                 unix_swap=(LOOP_SWAP_OPT if "poll_opt" in tags else LOOP_SWAP), shrink=False, netns=True,
-                args=["-focus", "startfault", "-n", str(n)], tags=tags, sites=["^fd-leak$", "^engine-start$", "^hang$"],
+                args=["-focus", "startfault", "-n", str(n)], tags=tags, sites=["^fd-leak$", "^fd-not-owned$", "^engine-start$", "^hang$"],
                 timeout=dict(quick=600, thorough=3000))
 
 
